@@ -1808,6 +1808,49 @@ func genMvccSession(rng *rand.Rand, st *Stats) []string {
 			}
 			ops = append(ops, fmt.Sprintf("commit %d %d", id, c))
 			open = append(open[:j], open[j+1:]...)
+		case r < 71 && vmaxG > 0 && rng.Intn(2) == 0:
+			// value-log rotation in the middle of ONE write batch: fresh transactions with values that
+			// go to the value log, more entries than ValueLogMaxEntries, committed as a batch; every
+			// value must read back afterwards (the pointers must name the file the value went to)
+			nb := vmaxG + 2 + rng.Intn(3)
+			var items []string
+			var bkeys [][]byte
+			for j := 0; j < nb; j++ {
+				rts := uint64(0)
+				if managed {
+					rts = math.MaxUint64
+				}
+				ops = append(ops, fmt.Sprintf("begin %d 1 %d", nextID, rts))
+				k := []byte{0x76, byte(0x30 + j%10), byte(0x30 + j/10)}
+				v := make([]byte, thr+8+rng.Intn(40))
+				rng.Read(v)
+				if thr > 1000 {
+					v = v[:24] // huge thresholds: the value stays inline (nothing to rotate), keep it small
+				}
+				ops = append(ops, fmt.Sprintf("set %d %s 0 %d 0 %s 0", nextID, hx(k), j+1, hx(v)))
+				bkeys = append(bkeys, k)
+				c := uint64(0)
+				if managed {
+					cts++
+					c = cts
+					keyMax[string(k)] = c
+				}
+				items = append(items, fmt.Sprintf("%d:%d", nextID, c))
+				nextID++
+			}
+			ops = append(ops, "batchcommit "+strings.Join(items, " "))
+			rid := nextID
+			nextID++
+			rts := uint64(0)
+			if managed {
+				rts = math.MaxUint64
+			}
+			ops = append(ops, fmt.Sprintf("begin %d 0 %d", rid, rts))
+			for _, k := range bkeys {
+				ops = append(ops, fmt.Sprintf("get %d %s", rid, hx(k)))
+			}
+			ops = append(ops, fmt.Sprintf("iter %d rev=0 all=0 prefetch=1 prefix=76 seek=rewind", rid), fmt.Sprintf("discard %d", rid))
+			st.Inc("scenario_vlog_rotation_in_batch")
 		case r < 71 && len(open) >= 2:
 			// several commits written by one writeRequests / valueLog.write call
 			nb := 2 + rng.Intn(3)
